@@ -57,6 +57,45 @@ def spelled(titles, si, r, c, k):
     return Cell(si, L, str(r))
 
 
+BAD_ROWS = ['x', '1.0', ' 7', '+7', '1_0', '\u0667', '\uff11', '0', '-1', '1e1', '0x1', 'A', '7 ', '\n3']
+BAD_COLS = ['1', 'A1', 'a-b', ' ', 'ZZZZ', 'AAAA', '\u0410']
+BAD_TITLES = ['no such sheet', '', ' ']
+
+
+def probe_malformed(ctx, ex, titles, case0):
+    """addresses that name no cell (a row text that is no plain number, impossible column letters, an unknown title), through get_cell,
+    get_cells and set_cells: the answer is the library's cell exception - never a foreign one, and never the value of some cell the
+    text does not name (a row text that IS a number in a looser spelling may be read as that number, nothing else)"""
+    from excel2pycl import Cell
+    r = ctx.r
+    probes = [(titles[0], 'A', t) for t in BAD_ROWS] + [(titles[0], c, '1') for c in BAD_COLS] + [(t, 'A', '1') for t in BAD_TITLES]
+    for (t, c, row) in probes:
+        for api in ('get_cell', 'get_cells', 'set_cells'):
+            def call():
+                if api == 'get_cell':
+                    return ex.get_cell(Cell(t, c, row)).value
+                if api == 'get_cells':
+                    return ex.get_cells([Cell(titles[0], 'A', '1'), Cell(t, c, row)])[-1].value
+                ex.set_cells([Cell(t, c, row, 424242)])
+                return 'accepted'
+            o = pipeline.guarded(call, 'evaluate')
+            r.ev()
+            r.count('malformed_address_probes')
+            if o.ok:
+                loose = row.strip().lstrip('+').replace('_', '')
+                named = t == titles[0] and c == 'A' and loose.isascii() and loose.isdigit() and int(loose) >= 1
+                if api == 'set_cells' or not named:
+                    report(r, ID, None, dict(case0, api=api, address=[t, c, row]), o.brief(), 'the cell exception of the library', monitor='malformed-address')
+                    if api == 'set_cells':
+                        return      # the executor now holds an override the schedule knows nothing about
+                else:
+                    want = pipeline.guarded(lambda: ex.get_cell(Cell(0, 0, int(loose) - 1)).value, 'evaluate')
+                    if not (want.ok and canon(want.value) == canon(o.value)):
+                        report(r, ID, None, dict(case0, api=api, address=[t, c, row]), o.brief(), 'the cell exception of the library', monitor='malformed-address')
+            elif o.kind != pipeline.LIB_EXC:
+                report(r, ID, None, dict(case0, api=api, address=[t, c, row]), o.brief(), 'the cell exception of the library', monitor='malformed-address')
+
+
 def run_book(ctx, bi, ncalls, replay=None, source=None):
     from excel2pycl import Executor, Cell
     r, rng = ctx.r, ctx.rng
@@ -302,6 +341,8 @@ def run_book(ctx, bi, ncalls, replay=None, source=None):
                     if pos != (si, ri, ci):
                         report(r, ID, None, dict(case0, executor=which, api='get_sheet', sheet=si), pos, (si, ri, ci), monitor='sheet-grid-order')
                     check(which, (si, ri + 1, ci + 1), ('V', canon(cell.value)), 'get_sheet')
+    if bi % 4 == 0:
+        probe_malformed(ctx, exA, titles, case0)
     # sizes reported after the schedule = sizes before it
     for which, ex, ov in (('A', exA, ovA_now()), ('B', exB, ovB)):
         for si in range(ns):
